@@ -227,6 +227,26 @@ def run(out: Outcome) -> None:
         check_numeric(out, rng, sample(rng, n, k1), sample(rng, m, k2), lines, expect)
     for _ in range(60 if thorough else 20):
         check_chi2(out, rng, lines, expect)
+    # KF-C12-2: Kuiper on nearly identical samples of 290+ values (second branch of the series at N >= 144.7)
+    for nn, shift in ((290, 3.5), (300, 4.5)):
+        a = np.arange(float(nn))
+        kd = KuiperTest()
+        kd.fit(X=a)
+        try:
+            rk = kd.compare(X=a + shift)[0]
+            if math.isnan(float(rk.p_value)) or not (0 <= float(rk.p_value) <= 1):
+                if "KF-C12-1" in out.findings:
+                    out.findings["KF-C12-1"].hits += 1
+                else:
+                    out.violation(f"KuiperTest: p-value {float(rk.p_value)!r} for arange({nn}) vs arange({nn}) + {shift}", {"n": nn, "shift": shift})
+        except OverflowError as e:
+            if "KF-C12-2" in out.findings:
+                out.findings["KF-C12-2"].hits += 1
+            else:
+                out.violation(f"KuiperTest.compare raises OverflowError: {e} for arange({nn}) vs arange({nn}) + {shift}", {"n": nn, "shift": shift})
+        except Exception as e:  # noqa: BLE001
+            out.violation(f"KuiperTest.compare raises {type(e).__name__}: {e} for arange({nn}) vs arange({nn}) + {shift}", {"n": nn, "shift": shift})
+        out.case({"kuiper_large": nn, "shift": shift})
     # keyword forwarding glue: model of the (repaired) wiring
     for has_alt in (0, 1):
         for n_other in (0, 1, 2):
